@@ -51,6 +51,18 @@ fn lattice() -> Vec<BigUint> {
   v.push(BigUint::parse_bytes(b"aaaaaaaaaaaaaaaaaaaaaaaaaaaaaaaa", 16).unwrap());
   v.push(BigUint::parse_bytes(b"55555555555555555555555555555555", 16).unwrap());
   let mut v: Vec<BigUint> = v.into_iter().filter(|x| *x < p).collect();
+  // the same boundaries in the MONTGOMERY domain: x with x*R mod p within 3 of 0, 2^64, 2^128, p
+  // (intermediate results of the limb code that are tiny / limb-aligned / just below the modulus)
+  let rinv = rm::invm(&r).unwrap();
+  for c in [BigUint::zero(), &one << 64, &one << 128, p.clone()] {
+    for d in 0u32..=3 {
+      for m in [&c + BigUint::from(d), if c >= BigUint::from(d) { &c - BigUint::from(d) } else { c.clone() }] {
+        if m < p {
+          v.push(rm::mulm(&m, &rinv));
+        }
+      }
+    }
+  }
   v.sort();
   v.dedup();
   v
@@ -253,7 +265,8 @@ fn closure_seeds(tier: Tier) -> Vec<BigUint> {
     (&one << 127) + BigUint::from(12345u32),
     BigUint::parse_bytes(b"fedcba98765432100123456789abcdef", 16).unwrap(),
   ];
-  if tier.thorough() {
+  let _ = tier;
+  if true {
     s.extend(vec![
       (&one << 96) - &one,
       (&one << 65) + &one,
@@ -482,7 +495,7 @@ pub fn spec() -> PropSpec {
       },
       Check {
         name: "lattice-binops",
-        rule: "all ordered pairs of the boundary lattice (values within 6 of 0, 2^32, 2^63..2^65, 2^96, 2^127, 2^128, (p-1)/2, p, plus Montgomery constants and limb patterns) x {+,-,*, assign forms, ==}; distinct = ordered pairs",
+        rule: "all ordered pairs of the boundary lattice (values within 6 of 0, 2^32, 2^63..2^65, 2^96, 2^127, 2^128, (p-1)/2, p, Montgomery constants, limb patterns, and the values whose MONTGOMERY form is within 3 of 0, 2^64, 2^128, p) x {+,-,*, assign forms, ==}; distinct = ordered pairs",
         gen: |_| (0..lattice().len()).map(|i| json!({"row": i})).collect(),
         run: run_binops,
         min_counts: &[("evaluations", 50_000)],
@@ -497,7 +510,7 @@ pub fn spec() -> PropSpec {
       Check {
         name: "closure-depth2",
         rule: "BFS over field values reachable from the seed set by all unary/binary real operations to depth 2; every state is a real Fp produced by real ops and compared with the model value; distinct = depth-1 states",
-        gen: |t| (0..if t.thorough() { 1600 } else { 600 }).map(|i| json!({"row": i})).collect(),
+        gen: |_| (0..1600).map(|i| json!({"row": i})).collect(),
         run: run_closure,
         min_counts: &[("evaluations", 10_000)],
       },
@@ -506,7 +519,7 @@ pub fn spec() -> PropSpec {
         rule: "every canonical lattice encoding with every one of 24 byte positions set to each of 256 values: from_repr / Share::try_from accept iff integer < p, value and re-encoding exact; distinct = base encodings",
         gen: |t| {
           let n = lattice().len();
-          (0..n).filter(|i| t.thorough() || i % 3 == 0).map(|i| json!({"idx": i})).collect()
+          (0..n).filter(|_| true || t.thorough()).map(|i| json!({"idx": i})).collect()
         },
         run: run_decode_grid,
         min_counts: &[("decode_accepted", 1000), ("decode_rejected", 1000)],
